@@ -19,6 +19,7 @@ type GenOpts struct {
 	PDisposable                                 int // probability an output type is a D type
 	PReuseType                                  int // probability an output reuses a concrete type already produced elsewhere
 	PSingleIface                                int // single-return constructor declared with an interface result type
+	PStaticKind                                 int // dependency-free single-output registrations use a closure / method value instead of reflect.MakeFunc
 
 	// lifetimes weights (singleton, scoped, transient)
 	WLife [3]int
@@ -64,7 +65,7 @@ func defaultGen() GenOpts {
 		PBuiltinDep: 100, PGroupDep: 300, POptionalMissing: 100, PIgnored: 60,
 		MaxDeps:     3,
 		PDisposable: 500,
-		PReuseType:  150, PSingleIface: 120,
+		PReuseType:  150, PSingleIface: 120, PStaticKind: 350,
 		WLife:    [3]int{3, 4, 3},
 		MinTasks: 1, MaxTasks: 3, MaxOps: 8,
 		WOp:                [8]int{0, 10, 3, 4, 2, 1, 1, 0},
@@ -339,6 +340,9 @@ func (g *gen) genConfig() *Config {
 				}
 				r.Deps = append(r.Deps, d)
 			}
+		}
+		if staticKindApplicable(r) && g.p(StCfg, o.PStaticKind) {
+			r.FuncKind = 1 + g.n(StCfg, 2)
 		}
 		c.Regs = append(c.Regs, r)
 		for _, p := range regIdents(r) {
@@ -688,7 +692,7 @@ func (g *gen) genFaults(c *Config) []*Fault {
 	nf := g.weighted(StFault, o.FaultBudget[:])
 	var fs []*Fault
 	if ov := g.t.Override; ov != nil {
-		nf = 1
+		nf = 1 + len(g.t.More)
 	}
 	for i := 0; i < nf && len(c.Regs) > 0; i++ {
 		f := &Fault{Kind: g.weighted(StFault, o.WFault[:])}
@@ -696,6 +700,9 @@ func (g *gen) genFaults(c *Config) []*Fault {
 		f.N = g.n(StFault, 3)
 		f.PanicKind = g.n(StFault, 5)
 		if ov := g.t.Override; ov != nil {
+			if i > 0 {
+				ov = &g.t.More[i-1]
+			}
 			f.Kind, f.Reg, f.N, f.PanicKind = ov.Kind, ov.Reg, ov.N, ov.PanicKind
 		}
 		f.Err = &sentinelErr{Site: fmt.Sprintf("r%d#%d/%s", f.Reg, f.N, faultNames[f.Kind])}
